@@ -737,26 +737,25 @@ def parseRule? : List String → Option PRule
 /-! ## Instantiating the regenerated rule templates (ties `render` to the source text of /repo) -/
 
 open Galaxy.Generated.Policy (Tok) in
-def instTok (vars : String → String) (joins : String → List String) (splices : String → List String) :
-    Tok → List String
+def instTok (vars : String → String) (joins : String → List String) : Tok → List String
   | .lit s => [s]
   | .var v => [vars v]
   | .join v sep => [String.intercalate sep (joins v)]
-  | .splice v => splices v
 
 open Galaxy.Generated.Policy (Tok) in
-def instTpl (vars : String → String) (joins : String → List String) (splices : String → List String)
-    (t : List Tok) : List String := t.flatMap (instTok vars joins splices)
+def instTpl (vars : String → String) (joins : String → List String) (t : List Tok) : List String :=
+  t.flatMap (instTok vars joins)
 
-/-- variables of writePolicyChainRules -/
+/-- variables of writePolicyChainRules (canonical parameter / loop-variable names by position, see
+    tools/factgen/cmd/policy/specs.go) -/
 def plcyVars (chain cm s d : String) (v : String) : String :=
   if v = "policyChainName" then chain else if v = "policyNameComment" then cm
   else if v = "srcTableName" then s else if v = "dstTableName" then d else "?" ++ v
 
-/-- variables of SyncPodChains -/
+/-- variables of SyncPodChains: the words are canonical Go expressions (single-assignment locals inlined) -/
 def podVars (podChain cm ip plcyChain : String) (v : String) : String :=
-  if v = "podChain" then podChain else if v = "podNameComment" then cm
-  else if v = "pod.Status.PodIP" then ip else if v = "policyChainName" then plcyChain else "?" ++ v
+  if v = "podChainName(pod)" then podChain else if v = "fmt.Sprintf(\"%s_%s\", pod.Name, pod.Namespace)" then cm
+  else if v = "pod.Status.PodIP" then ip else if v = "policyChainName(policy.np)" then plcyChain else "?" ++ v
 
 /-! ## Synchronisation against an arbitrary prior kernel state (C15)
 
